@@ -273,7 +273,7 @@ func genCase(r *core.Rng) kase {
 
 func run(c *core.Ctx) {
 	r := c.Rng("runs")
-	n := c.N(1200, 40000) / c.NShards
+	n := c.N(4000, 80000) / c.NShards
 	inter := map[uint64]bool{}
 	for i := 0; i < n; i++ {
 		k := genCase(r)
